@@ -5,12 +5,14 @@
 //   driver parse_float <RetT>  in_endoff= in_size= in_stopch= in_fbits=
 //   driver token               g_tok=<bytes,...> in_size=
 //   driver unused              in_npos= in_nnamed= in_usedmask=
+//   driver split               g_t0..g_t8= in_size=
 //   driver getter <which>      ...
 // The abstract numeral of the proof (sign, magnitude, overflow flag, "something follows the numeral", "what follows is a
 // NUL") is turned back into a concrete text in the requested base; the expected outcome is computed from the text's
 // mathematical value with 128-bit arithmetic, independently of strtoull.
 #include "replay/common/args.hh"
 #include "Arguments.hh"
+#include <cerrno>
 #include <cmath>
 #include <stdexcept>
 #include <string>
@@ -55,22 +57,37 @@ static std::string numeral(unsigned fmt, bool neg, uint64_t mag, bool ovf, uint6
 enum Outcome { RETURNED, INVALID_ARGUMENT, OUT_OF_RANGE, OTHER };
 static const char* oname(Outcome o) { return o == RETURNED ? "returned" : o == INVALID_ARGUMENT ? "threw invalid_argument" : o == OUT_OF_RANGE ? "threw out_of_range" : "threw something else"; }
 
-template <typename T> static int parse_int_mode(const Args& A) {
+template <typename T> static const char* tname() {
+  return sizeof(T) == 1 ? (std::is_signed_v<T> ? "int8_t" : "uint8_t") : sizeof(T) == 2 ? (std::is_signed_v<T> ? "int16_t" : "uint16_t")
+       : sizeof(T) == 4 ? (std::is_signed_v<T> ? "int32_t" : "uint32_t") : (std::is_signed_v<T> ? "int64_t" : "uint64_t");
+}
+
+// the text the abstract scanner state stands for
+static std::string int_text(const Args& A, bool& any, bool& all) {
   unsigned fmt = (unsigned)A.u("in_format");
   bool neg = A.u("in_neg") != 0, ovf = A.u("in_ovf") != 0;   // a nondet bool of the model is true for any non-zero byte
   uint64_t mag = A.u("in_mag"), endoff = A.u("in_endoff"), size = A.u("in_size");
   unsigned char stopch = (unsigned char)A.u("in_stopch");
+  any = endoff != 0; all = endoff == size;
+  if (!any) return (size == 0) ? std::string() : (stopch == 0 ? std::string("\0zz", 3) : std::string("zz"));
+  std::string text = numeral(fmt, neg, mag, ovf, size);
+  if (!all) text += (stopch == 0) ? std::string("\0x", 2) : std::string("zz");
+  return text;
+}
+
+// how: 0 = get<T>("x", format) on --x=text, 1 = get<T>("x", default, format), 2 = get<T>(0, format) on the positional token,
+//      3 = get<T>(0, default, format); absent: the argument is not supplied at all
+template <typename T> static int int_getter_mode(const Args& A, int how, bool absent) {
+  unsigned fmt = (unsigned)A.u("in_format");
   if (fmt > 3) { fprintf(stderr, "format outside the enum\n"); return 2; }
   static_assert((int)Arguments::IntFormat::DEFAULT == 0 && (int)Arguments::IntFormat::HEX == 1 &&
                 (int)Arguments::IntFormat::DECIMAL == 2 && (int)Arguments::IntFormat::OCTAL == 3, "IntFormat numbering");
-  bool any = endoff != 0, all = endoff == size;
-  std::string text;
-  if (!any) {
-    text = (size == 0) ? "" : (stopch == 0 ? std::string("\0zz", 3) : std::string("zz"));
-  } else {
-    text = numeral(fmt, neg, mag, ovf, size);
-    if (!all) text += (stopch == 0) ? std::string("\0x", 2) : std::string("zz");
-  }
+  bool neg = A.u("in_neg") != 0, ovf = A.u("in_ovf") != 0; uint64_t mag = A.u("in_mag");
+  bool any, all;
+  std::string text = int_text(A, any, all);
+  bool positional = how >= 2, with_default = how & 1;
+  T dflt = (T)A.u("in_default");
+  if (positional && !absent && !text.empty() && text[0] == '-') { printf("a token starting with '-' is never positional: not deliverable, nothing to check\n"); return 0; }
   // the statement, from the mathematical value
   s128 m = ovf ? (s128)(((u128)1 << 64) + mag) : (s128)mag;
   if (neg) m = -m;
@@ -80,30 +97,68 @@ template <typename T> static int parse_int_mode(const Args& A) {
   bool complete = any && all;
   bool decided = !is64 || (!ovf && mag < 0x8000000000000000ull);
   bool fits = is64 ? true : (m >= lo && m <= hi);
+  std::vector<std::string> tokens;
+  if (!absent) tokens.push_back(positional ? text : std::string("--x=") + text);
+  Arguments a(tokens);
+  auto F = static_cast<Arguments::IntFormat>(fmt);
   Outcome got = OTHER; T val = 0; std::string what;
+  errno = (int)A.u("in_errno");                  // whatever an earlier library call left behind
   try {
-    Arguments a(std::vector<std::string>{std::string("--x=") + text});
-    val = a.get<T>("x", static_cast<Arguments::IntFormat>(fmt));
+    switch (how) {
+      case 0: val = a.get<T>("x", F); break;
+      case 1: val = a.get<T>("x", dflt, F); break;
+      case 2: val = a.get<T>((size_t)0, F); break;
+      default: val = a.get<T>((size_t)0, dflt, F); break;
+    }
     got = RETURNED;
   } catch (const std::invalid_argument& e) { got = INVALID_ARGUMENT; what = e.what();
   } catch (const std::out_of_range& e) { got = OUT_OF_RANGE; what = e.what();
   } catch (...) { got = OTHER; }
-  printf("get<%s>(\"x\", format %u) on --x=%s %s", sizeof(T) == 1 ? (std::is_signed_v<T> ? "int8_t" : "uint8_t") : sizeof(T) == 2 ? (std::is_signed_v<T> ? "int16_t" : "uint16_t") : sizeof(T) == 4 ? (std::is_signed_v<T> ? "int32_t" : "uint32_t") : (std::is_signed_v<T> ? "int64_t" : "uint64_t"),
-         fmt, show(text).c_str(), oname(got));
+  printf("get<%s>(%s%s, format %u) on {%s} %s", tname<T>(), positional ? "0" : "\"x\"", with_default ? ", default" : "", fmt,
+         absent ? "" : show(tokens[0]).c_str(), oname(got));
   if (got == RETURNED) printf(" %lld", (long long)val);
   if (!what.empty()) printf(" (%s)", what.c_str());
   printf("\n");
+  if (absent) {
+    if (with_default) RCHECK(got == RETURNED && val == dflt, "the argument is absent: the supplied default %lld must be returned", (long long)dflt);
+    else RCHECK(got == OUT_OF_RANGE, "the argument is absent: out_of_range expected, the getter %s", oname(got));
+    printf("holds on this input\n");
+    return 0;
+  }
   RCHECK(got == RETURNED || got == INVALID_ARGUMENT, "a present argument must be returned or rejected with invalid_argument");
   if (!complete) RCHECK(got == INVALID_ARGUMENT, "the text is not one complete numeral (numeral present: %d, followed by something: %d) but the getter %s", any, !all, oname(got));
   if (complete && decided) {
     RCHECK((got == RETURNED) == fits, "the numeral %s the type but the getter %s", fits ? "fits" : "does not fit", oname(got));
     if (got == RETURNED) RCHECK(val == (T)(uint64_t)(u128)m, "returned %lld, the numeral's value is %lld", (long long)val, (long long)(T)(uint64_t)(u128)m);
   }
+  // a delivered argument counts as read: nothing is left unused
+  bool unused_throws = false;
+  try { a.assert_none_unused(); } catch (const std::invalid_argument&) { unused_throws = true; }
+  if (got == RETURNED) RCHECK(!unused_throws, "the only argument was delivered by the getter but assert_none_unused still throws");
   printf("holds on this input\n");
   return 0;
 }
+// a few texts whose value depends on the base the format names (the counterexample's numeral may read the same in two bases)
+template <typename T> static int base_probe(unsigned fmt) {
+  struct P { const char* text; long long val[4]; };      // value under DEFAULT, HEX, DECIMAL, OCTAL; -1 = not a numeral of that base
+  static const P probes[] = {{"10", {10, 16, 10, 8}}, {"0x10", {16, 16, -1, -1}}, {"010", {8, 16, 10, 8}}, {"1f", {-1, 31, -1, -1}}, {"9", {9, 9, 9, -1}}};
+  for (const P& p : probes) {
+    Outcome got = OTHER; T val = 0;
+    try { Arguments a(std::vector<std::string>{std::string("--x=") + p.text}); val = a.get<T>("x", static_cast<Arguments::IntFormat>(fmt)); got = RETURNED; }
+    catch (const std::invalid_argument&) { got = INVALID_ARGUMENT; } catch (...) { got = OTHER; }
+    long long want = p.val[fmt];
+    if (want < 0) RCHECK(got == INVALID_ARGUMENT, "\"%s\" is not a numeral of the base of format %u but the getter %s", p.text, fmt, oname(got));
+    else RCHECK(got == RETURNED && (long long)val == want, "\"%s\" under format %u must be %lld, the getter %s %lld", p.text, fmt, want, oname(got), (long long)val);
+  }
+  return 0;
+}
+template <typename T> static int parse_int_mode(const Args& A) {
+  int r = int_getter_mode<T>(A, 0, false);
+  return r ? r : base_probe<T>((unsigned)A.u("in_format"));
+}
 
-template <typename T> static int parse_float_mode(const Args& A, const char* tname) {
+// positional: the token itself is the argument; absent: nothing supplied; in_default (has_value, value bits) for the optional
+template <typename T> static int float_getter_mode(const Args& A, const char* tname, bool positional, bool absent) {
   uint64_t endoff = A.u("in_endoff"), size = A.u("in_size"), bits = A.u("in_fval");
   unsigned char stopch = (unsigned char)A.u("in_stopch");
   double d; memcpy(&d, &bits, 8);
@@ -119,18 +174,30 @@ template <typename T> static int parse_float_mode(const Args& A, const char* tna
     text = b;
     if (!all) text += (stopch == 0) ? std::string("\0x", 2) : std::string("zz");
   }
+  if (positional && !absent && !text.empty() && text[0] == '-') { printf("a token starting with '-' is never positional: not deliverable, nothing to check\n"); return 0; }
+  bool has_default = A.u("in_has_default") != 0;
+  T dflt = (T)1.5;
+  std::vector<std::string> tokens;
+  if (!absent) tokens.push_back(positional ? text : std::string("--x=") + text);
+  Arguments a(tokens);
   Outcome got = OTHER; T val = 0; std::string what;
   try {
-    Arguments a(std::vector<std::string>{std::string("--x=") + text});
-    val = a.get<T>("x");
+    std::optional<T> od = has_default ? std::optional<T>(dflt) : std::nullopt;
+    val = positional ? a.get<T>((size_t)0, od) : a.get<T>("x", od);
     got = RETURNED;
   } catch (const std::invalid_argument& e) { got = INVALID_ARGUMENT; what = e.what();
   } catch (const std::out_of_range& e) { got = OUT_OF_RANGE; what = e.what();
   } catch (...) { got = OTHER; }
-  printf("get<%s>(\"x\") on --x=%s %s", tname, show(text).c_str(), oname(got));
+  printf("get<%s>(%s%s) on {%s} %s", tname, positional ? "0" : "\"x\"", has_default ? ", 1.5" : "", absent ? "" : show(tokens[0]).c_str(), oname(got));
   if (got == RETURNED) printf(" %.17g", (double)val);
   if (!what.empty()) printf(" (%s)", what.c_str());
   printf("\n");
+  if (absent) {
+    if (has_default) RCHECK(got == RETURNED && val == dflt, "the argument is absent: the supplied default must be returned");
+    else RCHECK(got == OUT_OF_RANGE, "the argument is absent and no default is supplied: out_of_range expected, the getter %s", oname(got));
+    printf("holds on this input\n");
+    return 0;
+  }
   bool complete = any && all;
   RCHECK((got == RETURNED) == complete, "the text %s one complete floating-point literal but the getter %s", complete ? "is" : "is not", oname(got));
   RCHECK(got == RETURNED || got == INVALID_ARGUMENT, "a present argument must be returned or rejected with invalid_argument");
@@ -138,8 +205,224 @@ template <typename T> static int parse_float_mode(const Args& A, const char* tna
     T want = (T)d;
     RCHECK(val == want || (std::isnan(val) && std::isnan(want)), "returned %.17g, the literal denotes %.17g", (double)val, (double)want);
   }
+  bool unused_throws = false;
+  try { a.assert_none_unused(); } catch (const std::invalid_argument&) { unused_throws = true; }
+  if (got == RETURNED) RCHECK(!unused_throws, "the only argument was delivered by the getter but assert_none_unused still throws");
   printf("holds on this input\n");
   return 0;
+}
+
+// ---- one token through Arguments::parse ------------------------------------------------------------------------------
+// The token (<= 8 bytes, g_t0..g_t8, length in_size) is parsed between two positional markers; what was recorded is observed
+// through the public getters: expected reads succeed with the expected texts, in order, and nothing is left unread.
+static int token_mode(const Args& A) {
+  if (!A.has("g_t0")) { fprintf(stderr, "no concrete token in the counterexample (only the small re-ask carries one)\n"); return 2; }
+  size_t n = A.u("in_size");
+  if (n > 8) { fprintf(stderr, "token longer than the replay bound\n"); return 2; }
+  std::string s;
+  for (size_t i = 0; i < n; i++) { char k[8]; snprintf(k, sizeof k, "g_t%zu", i); s.push_back((char)A.u(k)); }
+  printf("token %s\n", show(s).c_str());
+  bool optn = n >= 3 && s[0] == '-' && s[1] == '-';
+  bool flags = n >= 2 && s[0] == '-' && s[1] != '-';
+  bool threw = false; std::string what;
+  try {
+    Arguments a(std::vector<std::string>{"first", s, "last"});
+    size_t p = 0;
+    bool fresh_unused = false;
+    try { a.assert_none_unused(); } catch (const std::invalid_argument&) { fresh_unused = true; }
+    RCHECK(fresh_unused, "nothing was read yet but assert_none_unused does not throw (arguments are born used)");
+    RCHECK(a.get<std::string>(p++) == "first", "the token before is not positional 0");
+    if (optn) {
+      size_t eq = s.find('=', 2);
+      std::string name = s.substr(2, eq == std::string::npos ? std::string::npos : eq - 2);
+      std::string value = eq == std::string::npos ? "" : s.substr(eq + 1);
+      auto v = a.get_multi<std::string>(name);
+      RCHECK(v.size() == 1 && v[0] == value, "option %s: %zu values recorded, expected exactly the value %s", show(name).c_str(), v.size(), show(value).c_str());
+    } else if (flags) {
+      std::string letters = s.substr(1, s.find('\0', 1) == std::string::npos ? std::string::npos : s.find('\0', 1) - 1);
+      for (size_t i = 0; i < letters.size(); i++) {
+        if (letters.find(letters[i]) != i) continue;
+        size_t cnt = 0; for (char c : letters) cnt += c == letters[i];
+        auto v = a.get_multi<std::string>(std::string(1, letters[i]));
+        RCHECK(v.size() == cnt, "flag %s recorded %zu times, it occurs %zu times in the group", show(std::string(1, letters[i])).c_str(), v.size(), cnt);
+        for (auto& x : v) RCHECK(x.empty(), "a flag carries the value %s", show(x).c_str());
+      }
+    } else {
+      RCHECK(a.get<std::string>(p++) == s, "the token is positional but positional %zu is %s", p - 1, show(a.get<std::string>(p - 1, false)).c_str());
+    }
+    RCHECK(a.get<std::string>(p++, false) == "last", "the token after is not the next positional argument (order / count of positional arguments is off)");
+    RCHECK(a.get<std::string>(p, false).empty(), "more positional arguments than tokens");
+    bool unused = false;
+    try { a.assert_none_unused(); } catch (const std::invalid_argument& e) { unused = true; what = e.what(); }
+    RCHECK(!unused, "after reading exactly what the token's shape yields something is still unread: %s", what.c_str());
+  } catch (const std::exception& e) { threw = true; what = e.what(); }
+  RCHECK(!threw, "parsing or reading the expected arguments threw: %s", what.c_str());
+  printf("holds on this input\n");
+  return 0;
+}
+
+// ---- assert_none_unused: bounded native search (the proof's vectors are not visible in the counterexample) -----------
+// every command line of up to 2 positional tokens and the options --a (once or twice) / --b, every subset of reads
+static int unused_mode() {
+  const char* pos[] = {"p0", "p1"};
+  for (int npos = 0; npos <= 2; npos++) for (int na = 0; na <= 2; na++) for (int nb = 0; nb <= 1; nb++) {
+    std::vector<std::string> tokens;
+    for (int i = 0; i < npos; i++) tokens.push_back(pos[i]);
+    for (int i = 0; i < na; i++) tokens.push_back("--a=v");
+    for (int i = 0; i < nb; i++) tokens.push_back("--b");
+    int items = npos + (na ? 1 : 0) + nb;                 // readable units: each positional, option a (all values), option b
+    for (int mask = 0; mask < (1 << items); mask++) {
+      Arguments a(tokens);
+      int bit = 0; bool all_read = true;
+      for (int i = 0; i < npos; i++, bit++) { if (mask >> bit & 1) a.get<std::string>((size_t)i); else all_read = false; }
+      if (na) { if (mask >> bit & 1) a.get_multi<std::string>("a"); else all_read = false; bit++; }
+      if (nb) { if (mask >> bit & 1) a.get<bool>("b"); else all_read = false; bit++; }
+      bool threw = false, other = false;
+      try { a.assert_none_unused(); } catch (const std::invalid_argument&) { threw = true; } catch (...) { other = true; }
+      if (other || threw == all_read) {
+        printf("%d positional, --a x%d, --b x%d, read mask %#x: ", npos, na, nb, mask);
+        RCHECK(!other && threw != all_read, "every argument read: %d, assert_none_unused threw invalid_argument: %d", all_read, threw);
+      }
+    }
+  }
+  printf("assert_none_unused throws iff something is unread on all %s\nholds\n", "command lines of the search");
+  return 0;
+}
+
+// ---- get<std::string> / get<bool> / get_multi<std::string> on small command lines -------------------------------------
+static int string_getter_mode(const Args& A, const std::string& fn) {
+  bool present = A.u("in_present") != 0, tim = A.u("in_throw_if_missing") != 0;
+  if (fn == "get_string_named" || fn == "get_bool" || fn == "get_values_multi") {
+    for (int extra = 0; extra <= 1; extra++) {            // with / without an unrelated positional and option around it
+      std::vector<std::string> tokens;
+      if (extra) tokens.push_back("p0");
+      if (present) tokens.push_back("--x=val");
+      if (extra) tokens.push_back("--other=1");
+      Arguments a(tokens);
+      Outcome got = OTHER; std::string val; bool b = false; size_t cnt = 0;
+      try {
+        if (fn == "get_string_named") val = a.get<std::string>("x", tim);
+        else if (fn == "get_bool") b = a.get<bool>("x");
+        else { auto v = a.get_multi<std::string>("x"); cnt = v.size(); if (cnt) val = v[0]; }
+        got = RETURNED;
+      } catch (const std::out_of_range&) { got = OUT_OF_RANGE; } catch (const std::invalid_argument&) { got = INVALID_ARGUMENT; } catch (...) { got = OTHER; }
+      printf("%s(\"x\"%s) with --x %s: %s\n", fn.c_str(), fn == "get_string_named" ? (tim ? ", true" : ", false") : "", present ? "given" : "absent", oname(got));
+      if (fn == "get_string_named") {
+        if (present) RCHECK(got == RETURNED && val == "val", "the option is given once: its text must be returned");
+        else if (tim) RCHECK(got == OUT_OF_RANGE, "absent and throw_if_missing: out_of_range expected");
+        else RCHECK(got == RETURNED && val.empty(), "absent: the empty string expected");
+      } else if (fn == "get_bool") {
+        RCHECK(got == RETURNED && b == present, "get<bool> must be true iff the option is given, without throwing");
+      } else {
+        RCHECK(got == RETURNED && cnt == (present ? 1u : 0u) && (!present || val == "val"), "get_multi must deliver exactly the given values");
+      }
+      // marks exactly what it read
+      if (extra) { a.get<std::string>((size_t)0); a.get<std::string>("other"); }
+      bool unused = false;
+      try { a.assert_none_unused(); } catch (const std::invalid_argument&) { unused = true; }
+      RCHECK(!unused, "everything was read but assert_none_unused throws");
+      if (extra) {
+        Arguments c(tokens);
+        try { if (fn == "get_string_named") c.get<std::string>("x", tim); else if (fn == "get_bool") c.get<bool>("x"); else c.get_multi<std::string>("x"); } catch (...) {}
+        bool u2 = false;
+        try { c.assert_none_unused(); } catch (const std::invalid_argument&) { u2 = true; }
+        RCHECK(u2, "only --x was read, the other arguments must still count as unread");
+      }
+    }
+    printf("holds on this input\n");
+    return 0;
+  }
+  if (fn == "get_string_pos") {
+    size_t position = A.u("in_position") > 3 ? 3 : A.u("in_position");
+    for (size_t n = 0; n <= 3; n++) {
+      std::vector<std::string> tokens;
+      for (size_t i = 0; i < n; i++) tokens.push_back("p" + std::to_string(i));
+      Arguments a(tokens);
+      Outcome got = OTHER; std::string val;
+      try { val = a.get<std::string>(position, tim); got = RETURNED; }
+      catch (const std::out_of_range&) { got = OUT_OF_RANGE; } catch (...) { got = OTHER; }
+      printf("get<string>(%zu, %d) with %zu positional arguments: %s %s\n", position, tim, n, oname(got), show(val).c_str());
+      if (position < n) RCHECK(got == RETURNED && val == "p" + std::to_string(position), "the positional argument must be returned");
+      else if (tim) RCHECK(got == OUT_OF_RANGE, "absent and throw_if_missing: out_of_range expected");
+      else RCHECK(got == RETURNED && val.empty(), "absent: the empty string expected");
+      for (size_t i = 0; i < n; i++) if (i != position) {
+        bool u = false;
+        try { a.assert_none_unused(); } catch (const std::invalid_argument&) { u = true; }
+        RCHECK(u, "positional %zu was not read yet but assert_none_unused does not throw", i);
+        a.get<std::string>(i);
+      }
+      bool u = false;
+      try { a.assert_none_unused(); } catch (const std::invalid_argument&) { u = true; }
+      RCHECK(!u, "every positional argument was read but assert_none_unused throws");
+    }
+    printf("holds on this input\n");
+    return 0;
+  }
+  return 2;
+}
+
+// ---- get_multi: bounded native search over small value lists ---------------------------------------------------------
+template <typename T> static bool gm_case(const std::vector<std::string>& vals, const char* tn) {
+  std::vector<std::string> tokens{"p0"};
+  for (auto& v : vals) tokens.push_back("--x=" + v);
+  Arguments a(tokens);
+  a.get<std::string>((size_t)0);
+  std::vector<T> got; Outcome o = OTHER;
+  try { got = a.template get_multi<T>("x"); o = RETURNED; }
+  catch (const std::invalid_argument&) { o = INVALID_ARGUMENT; } catch (const std::out_of_range&) { o = OUT_OF_RANGE; } catch (...) { o = OTHER; }
+  // reference: each text on its own through the single-value getter
+  std::vector<T> want; bool bad = false;
+  for (auto& v : vals) {
+    try { Arguments s(std::vector<std::string>{"--x=" + v}); want.push_back(s.template get<T>("x")); } catch (const std::invalid_argument&) { bad = true; break; }
+  }
+  printf("get_multi<%s>(\"x\") on %zu values: %s, %zu results\n", tn, vals.size(), oname(o), got.size());
+  if (bad) { if (o != INVALID_ARGUMENT) { printf("POSTCONDITION VIOLATED on the real code: an invalid value must stop get_multi with invalid_argument\n"); return false; } return true; }
+  if (o != RETURNED || got.size() != want.size()) { printf("POSTCONDITION VIOLATED on the real code: one result per value expected\n"); return false; }
+  for (size_t i = 0; i < want.size(); i++) if (!(got[i] == want[i])) { printf("POSTCONDITION VIOLATED on the real code: result %zu differs from the value in position %zu\n", i, i); return false; }
+  bool unused = false;
+  try { a.assert_none_unused(); } catch (const std::invalid_argument&) { unused = true; }
+  if (unused) { printf("POSTCONDITION VIOLATED on the real code: every value was delivered but assert_none_unused throws\n"); return false; }
+  return true;
+}
+template <typename T> static int get_multi_mode(const char* tn, bool numeric) {
+  std::vector<std::vector<std::string>> cases = {{}, {"1"}, {"1", "2"}, {"3", "2", "1"}, {"7", "7"}};
+  if (numeric) { cases.push_back({"1", "zz", "3"}); cases.push_back({"zz"}); cases.push_back({"1", "2", "3x"}); }
+  else { cases.push_back({"", "a b", "="}); }
+  for (auto& c : cases) if (!gm_case<T>(c, tn)) return 1;
+  printf("holds on the search set\n");
+  return 0;
+}
+
+// ---- split_args on a short command line (g_t0..g_t8, length in_size) --------------------------------------------------
+static int split_mode(const Args& A) {
+  if (!A.has("g_t0")) { fprintf(stderr, "no concrete command line in the counterexample (only the small re-ask carries one)\n"); return 2; }
+  size_t n = A.u("in_size");
+  if (n > 8) return 2;
+  std::string s;
+  for (size_t i = 0; i < n; i++) { char k[8]; snprintf(k, sizeof k, "g_t%zu", i); s.push_back((char)A.u(k)); }
+  bool plain = true;
+  for (char c : s) plain = plain && c != '"' && c != '\'' && c != '\\' && c != 0;
+  std::vector<std::string> got; Outcome o = OTHER;
+  try { got = split_args(s); o = RETURNED; } catch (const std::runtime_error&) { o = INVALID_ARGUMENT; } catch (...) { o = OTHER; }
+  printf("split_args(%s): %s, %zu tokens\n", show(s).c_str(), o == RETURNED ? "returned" : o == INVALID_ARGUMENT ? "threw runtime_error" : "threw something else", got.size());
+  RCHECK(o != OTHER, "split_args may only throw runtime_error");
+  if (plain) {
+    std::vector<std::string> want;
+    for (size_t i = 0; i < s.size(); i++) {
+      bool blank = s[i] == ' ' || s[i] == '\t';
+      if (blank) continue;
+      if (i == 0 || s[i - 1] == ' ' || s[i - 1] == '\t') want.emplace_back();
+      want.back().push_back(s[i]);
+    }
+    RCHECK(o == RETURNED, "a command line without quotes and backslashes must not throw");
+    RCHECK(got == want, "the tokens are not the maximal non-blank runs (%zu tokens, %zu words)", got.size(), want.size());
+  }
+  printf("holds on this input\n");
+  return 0;
+}
+
+template <typename T> static int typed_int(const Args& A, const std::string& fn, bool positional, bool absent) {
+  return int_getter_mode<T>(A, (positional ? 2 : 0) + (fn == "get_int_default" ? 1 : 0), absent);
 }
 
 int main(int argc, char** argv) {
@@ -157,8 +440,35 @@ int main(int argc, char** argv) {
     if (t == "int64_t") return parse_int_mode<int64_t>(A);
   }
   if (m == "parse_float" && A.extra.size() == 1) {
-    if (A.extra[0] == "float") return parse_float_mode<float>(A, "float");
-    if (A.extra[0] == "double") return parse_float_mode<double>(A, "double");
+    if (A.extra[0] == "float") return float_getter_mode<float>(A, "float", false, false);
+    if (A.extra[0] == "double") return float_getter_mode<double>(A, "double", false, false);
+  }
+  if (m == "token") return token_mode(A);
+  if (m == "unused") return unused_mode();
+  if (m == "split") return split_mode(A);
+  if (m == "getter" && A.extra.size() == 1) return string_getter_mode(A, A.extra[0]);
+  if (m == "getter" && A.extra.size() == 2 && A.extra[0] == "get_multi") {
+    if (A.extra[1] == "std::string") return get_multi_mode<std::string>("std::string", false);
+    if (A.extra[1] == "int32_t") return get_multi_mode<int32_t>("int32_t", true);
+    if (A.extra[1] == "uint8_t") return get_multi_mode<uint8_t>("uint8_t", true);
+    if (A.extra[1] == "double") return get_multi_mode<double>("double", true);
+  }
+  if (m == "getter" && A.extra.size() == 4) {
+    const std::string &fn = A.extra[0], &t = A.extra[1];
+    bool positional = A.extra[2] == "position", absent = A.extra[3] == "absent";
+    if (fn == "get_float") {
+      if (t == "float") return float_getter_mode<float>(A, "float", positional, absent);
+      if (t == "double") return float_getter_mode<double>(A, "double", positional, absent);
+    } else {
+      if (t == "uint8_t") return typed_int<uint8_t>(A, fn, positional, absent);
+      if (t == "int8_t") return typed_int<int8_t>(A, fn, positional, absent);
+      if (t == "uint16_t") return typed_int<uint16_t>(A, fn, positional, absent);
+      if (t == "int16_t") return typed_int<int16_t>(A, fn, positional, absent);
+      if (t == "uint32_t") return typed_int<uint32_t>(A, fn, positional, absent);
+      if (t == "int32_t") return typed_int<int32_t>(A, fn, positional, absent);
+      if (t == "uint64_t") return typed_int<uint64_t>(A, fn, positional, absent);
+      if (t == "int64_t") return typed_int<int64_t>(A, fn, positional, absent);
+    }
   }
   fprintf(stderr, "unknown mode %s\n", m.c_str());
   return 2;
